@@ -1036,6 +1036,13 @@ func (interp *Interpreter) cfg(root *node, sc *scope, importPath, pkgName string
 			}
 			fixUntypedExprs(untyped, sc)
 
+			if isUntypedConstOp(n) {
+				// A constant expression on untyped operands is evaluated exactly, and its result is an
+				// untyped constant. The type expected by the context (see pre-order) is not the type of
+				// the operands: it applies to the result only, which is converted to it at assignment.
+				n.typ = c0.typ
+			}
+
 			switch n.action {
 			case aRem:
 				n.typ = c0.typ
@@ -2592,6 +2599,20 @@ func fixUntypedExprs(list []*node, sc *scope) {
 		}
 		fixUntyped(n, n.typ, sc)
 	}
+}
+
+// isUntypedConstOp returns true if the type checked binary expression n is an arithmetic,
+// bitwise, shift or string operation on untyped constant operands, given by their exact values.
+func isUntypedConstOp(n *node) bool {
+	c0, c1 := n.child[0], n.child[1]
+	if isComparisonAction(n.action) || !c0.rval.IsValid() || !c1.rval.IsValid() {
+		return false
+	}
+	if !c0.typ.untyped || !isConstantValue(c0.rval.Type()) {
+		return false
+	}
+	// The count of a constant shift is already converted to uint.
+	return isShiftAction(n.action) || c1.typ.untyped && isConstantValue(c1.rval.Type())
 }
 
 // fixUntyped propagates implicit type conversions for untyped binary expressions.
